@@ -43,10 +43,10 @@ def generate(prop, seed, tier):
     r = rng.stream(seed, 'workload')
     fr = rng.stream(seed, 'faults')
     thorough = tier == 'thorough'
-    n = _w(r, [(r.randint(1, 6), 2), (r.randint(7, 40), 5), (r.randint(41, 70), 2 if thorough else 0)])
+    n = _w(r, [(r.randint(1, 6), 2), (r.randint(7, 40), 5), (r.randint(41, 70), 2 if thorough else 0.3), (r.randint(100, 150), 1 if thorough else 0.15)])
     m = r.randint(2, 8)
     shape = fr.choice(['random', 'random', 'all_accept', 'all_reject', 'first_rej', 'last_rej', 'long_run', 'long_run', 'alternate'])
-    rej = 'rne'
+    rej = 'rnetvk'       # ResynchroError, None, ZeroDivisionError, TypeError, ValueError, a custom Exception subclass
     if shape == 'random':
         dens = fr.random()
         pat = [fr.choice(rej) if fr.random() < dens else 'a' for _ in range(n)]
@@ -61,7 +61,7 @@ def generate(prop, seed, tier):
     elif shape == 'long_run':
         pat = ['a'] * n
         s0 = fr.randint(0, max(0, n - 1))
-        L = fr.choice([8, 9, 16, 17, 24, 33])
+        L = fr.choice([8, 9, 16, 17, 24, 33] + ([64, 65, 130] if n >= 70 else []))
         for i in range(s0, min(n, s0 + L)):
             pat[i] = fr.choice(rej)
     else:
@@ -73,15 +73,19 @@ def generate(prop, seed, tier):
             # history before run(): the documented workflow tries the function with check() first (random picks -> numpy global RNG is seeded)
             'check_first': rng.stream(seed, 'history').choice([0, 0, 0, 1, 3, 5]),
             # dtype of the data the user function returns (may differ from the input trace dtype)
-            'ret_dtype': rng.stream(seed, 'retdtype').choice([None, None, 'float32', 'float64', 'int32'])}
+            'ret_dtype': rng.stream(seed, 'retdtype').choice([None, None, 'float32', 'float64', 'int32', 'int64', 'uint16']),
+            # returned values outside the range / resolution of the INPUT dtype (only with a wider returned dtype): the output must hold them exactly
+            'ret_bias': rng.stream(seed, 'retbias').choice([0, 0, 300, -7, 70000, 0.25]),
+            # the user function may hand back the same buffer object on every call (overwritten in place)
+            'reuse_buffer': rng.stream(seed, 'reuse').random() < 0.2}
 
 
 def make_input(scn):
     g = rng.np_stream(scn['table_seed'], 'sync')
     n, m = scn['n'], scn['m']
-    samples = (g.integers(0, 100, (80, 8))[:n, :m]).astype(scn['tdtype'])
-    meta = {'plaintext': g.integers(0, 256, (80, 16))[:n, :scn['ptw']].astype('uint8'), 'idx': np.arange(n).astype('uint32')}
-    gain = g.random(80)[:n].astype('float64')
+    samples = (g.integers(0, 100, (160, 8))[:n, :m]).astype(scn['tdtype'])
+    meta = {'plaintext': g.integers(0, 256, (160, 16))[:n, :scn['ptw']].astype('uint8'), 'idx': np.arange(n).astype('uint32')}
+    gain = g.random(160)[:n].astype('float64')
     if scn['gain']:
         meta['gain'] = gain
     if scn['label']:
@@ -91,6 +95,20 @@ def make_input(scn):
 
 def viol(oracle, sig, detail):
     return {'oracle': oracle, 'sig': [str(s) for s in sig], 'detail': detail}
+
+
+def ret_bias(scn):
+    """Offset added to the returned data; only values the returned dtype can hold."""
+    b = scn.get('ret_bias') or 0
+    dt = np.dtype(scn.get('ret_dtype') or scn['tdtype'])
+    if not scn.get('ret_dtype'):
+        return 0
+    if dt.kind in 'iu':
+        if b != int(b) or (dt.kind == 'u' and b < 0):
+            return 0
+        hi = np.iinfo(dt).max
+        return int(b) if 0 <= 200 + b <= hi else 0
+    return b
 
 
 def execute(scn):
@@ -104,25 +122,35 @@ def execute(scn):
     ths = make_ths(storage, samples, meta, 'in')
     calls = []
 
+    bias = ret_bias(scn)
+    buf = np.zeros(outlen, dtype=dt)
+
+    class UserBug(Exception):
+        pass
+
     def f(trace_object, scale=1):
         i = int(np.asarray(trace_object.idx).ravel()[0])
         calls.append(i)
         p = pat[i]
         if p == 'a':
             x = trace_object.samples[:]
-            return np.resize(x, outlen).astype(dt) * scale
+            y = (np.resize(x, outlen).astype(dt) * scale + bias).astype(dt)
+            if scn.get('reuse_buffer'):
+                buf[:] = y
+                return buf
+            return y
         if p == 'n':
             return None
         if p == 'r':
             raise scared.ResynchroError('no sync')
-        raise ZeroDivisionError('user bug')
+        raise {'e': ZeroDivisionError, 't': TypeError, 'v': ValueError, 'k': UserBug}[p]('user bug')
 
     scratch = tempfile.mkdtemp(prefix='verif_sync_', dir=SCRATCH_ROOT)
     fn = os.path.join(scratch, 'out.ets')
     out = fn if scn['out_kind'] == 'str' else pathlib.Path(fn)
     exp = [i for i in range(n) if pat[i] == 'a']
     violation = None
-    faults = {'user_raise': [sum(1 for c in pat if c in 're'), 0], 'user_none': [sum(1 for c in pat if c == 'n'), 0]}
+    faults = {'user_raise': [sum(1 for c in pat if c in 'retvk'), 0], 'user_none': [sum(1 for c in pat if c == 'n'), 0]}
     probes = {}
     res = None
     try:
@@ -145,7 +173,7 @@ def execute(scn):
                 res = sy.run()
         except Exception as e:
             run_exc = e
-        faults['user_raise'][1] = sum(1 for i in calls if pat[i] in 're')
+        faults['user_raise'][1] = sum(1 for i in calls if pat[i] in 'retvk')
         faults['user_none'][1] = sum(1 for i in calls if pat[i] == 'n')
         if run_exc is not None and exp:
             violation = viol('run_raised', ['C20', 'run_raised', type(run_exc).__name__], 'run() raised %r although %d traces were accepted' % (run_exc, len(exp)))
@@ -158,7 +186,7 @@ def execute(scn):
                 violation = viol('output_length', ['C20', 'output_length'], 'output has %s traces, accepted %d (pattern %s)' % (None if res is None else len(res), len(exp), pat))
             else:
                 S = res.samples[:]
-                want = np.array([np.resize(samples[i], outlen).astype(dt) * scn['scale'] for i in exp]).reshape(len(exp), outlen)
+                want = np.array([(np.resize(samples[i], outlen).astype(dt) * scn['scale'] + bias).astype(dt) for i in exp]).reshape(len(exp), outlen)
                 if not (S.shape == want.shape and np.array_equal(S, want)):
                     rows = [j for j in range(min(len(S), len(want))) if S.shape[1:] != want.shape[1:] or not np.array_equal(S[j], want[j])]
                     violation = viol('output_samples', ['C20', 'output_samples'], 'rows %s of the output are not the returned data of accepted traces %s (pattern %s)' % (rows[:5], exp[:8], pat))
@@ -201,6 +229,8 @@ def execute(scn):
         probes['failure_run_ge_16'] = 1
     if runs >= 32:
         probes['failure_run_ge_32'] = 1
+    if runs >= 64:
+        probes['failure_run_ge_64'] = 1
     if not exp:
         probes['all_rejected'] = 1
     case = rng.digest([n, pat, outlen, scn['ptw'], scn['label'], scn['gain'], scn['out_kind']])
@@ -226,11 +256,11 @@ def candidates(scn):
                 yield c
         size //= 2
     for i, ch in enumerate(scn['pattern']):
-        if ch in 'ne':
+        if ch in 'netvk':
             c = copy.deepcopy(scn)
             c['pattern'] = scn['pattern'][:i] + 'r' + scn['pattern'][i + 1:]
             yield c
-    for key, val in (('label', False), ('gain', False), ('ptw', 1), ('tdtype', 'uint8'), ('out_kind', 'str'), ('scale', 1), ('outlen', scn['m']), ('m', 2), ('check_first', 0), ('ret_dtype', None)):
+    for key, val in (('label', False), ('gain', False), ('ptw', 1), ('tdtype', 'uint8'), ('out_kind', 'str'), ('scale', 1), ('outlen', scn['m']), ('m', 2), ('check_first', 0), ('ret_dtype', None), ('ret_bias', 0), ('reuse_buffer', False)):
         if scn.get(key) != val:
             c = copy.deepcopy(scn)
             c[key] = val
